@@ -2,25 +2,39 @@ TRAIT = """
 // the part of `trait RecordFormat` this unit needs, with the contract every format must meet
 pub trait RecordFormat {
     spec fn head(&self, r: &Record) -> Seq<u8>;
+    // bytes of an extent head other than key and value: 4 + 2 + 8 + 8 (v1), + 8 (v2/v3)
+    spec fn fixed(&self) -> nat;
+    // the head has the length the size formula announces (the 4-byte sector header is not part of it)
+    proof fn head_len(&self, r: &Record)
+        ensures self.head(r).len() + 4 == self.fixed() + rec_key_spec(r).len(), self.fixed() <= 64;
+    fn record_header_size(&self, key_len: usize) -> (r: usize)
+        requires key_len <= 0x10_0000,
+        ensures r == self.fixed() + key_len;
+    fn total_size(&self, key_len: usize, value_len: usize) -> (r: usize)
+        requires key_len <= 0x10_0000, value_len <= 0x1000_0000,
+        ensures r == self.fixed() + key_len + value_len;
     fn serialize_record_into(&self, record: &Record, include_value: bool, data: &mut Vec<u8>)
         ensures final(data)@ == old(data)@ + self.head(record) + value_part(record, include_value);
 }
 """
 
 UNIT = dict(
-    sources={"f": "src/storage/format.rs", "c": "src/constants.rs", "w": "src/storage/write_buffer.rs"},
+    sources={"f": "src/storage/format.rs", "c": "src/constants.rs", "w": "src/storage/write_buffer.rs", "e": "src/error.rs"},
     uses=["use vstd::slice::*;"],
     prelude=["bytes.rs", "bytes_w.rs", "record_opaque.rs"],
-    rules=["opq_record", "tole", "resize", "sig_dyn_format"],
+    rules=["opq_record", "tole", "resize", "divceil", "sig_dyn_format"],
     items=[
+        ("error_enum", "e"),
         ("const", "c", "FEOX_BLOCK_SIZE"),
         ("const", "c", "SECTOR_HEADER_SIZE"),
         ("const", "c", "SECTOR_MARKER"),
         ("type", "f", "FormatV1"),
         ("type", "f", "FormatV2"),
         ("raw", TRAIT),
-        ("impl", "f", "FormatV1", ["serialize_record_into"], {"trait": "RecordFormat", "header": "impl RecordFormat for FormatV1 {\n    open spec fn head(&self, r: &Record) -> Seq<u8> { head_v1(r) }"}),
-        ("impl", "f", "FormatV2", ["serialize_record_into"], {"trait": "RecordFormat", "header": "impl RecordFormat for FormatV2 {\n    open spec fn head(&self, r: &Record) -> Seq<u8> { head_v2(r) }"}),
+        ("impl", "f", "FormatV1", ["record_header_size", "total_size", "serialize_record_into"], {"trait": "RecordFormat", "header": "impl RecordFormat for FormatV1 {\n    open spec fn head(&self, r: &Record) -> Seq<u8> { head_v1(r) }\n    open spec fn fixed(&self) -> nat { 22 }\n    proof fn head_len(&self, r: &Record) { lemma_head_len(r); }"}),
+        ("impl", "f", "FormatV2", ["record_header_size", "total_size", "serialize_record_into"], {"trait": "RecordFormat", "header": "impl RecordFormat for FormatV2 {\n    open spec fn head(&self, r: &Record) -> Seq<u8> { head_v2(r) }\n    open spec fn fixed(&self) -> nat { 30 }\n    proof fn head_len(&self, r: &Record) { lemma_head_len(r); }"}),
+        ("raw", open(__import__("os").path.join(__import__("os").path.dirname(__file__), "..", "prelude", "deferred_opaque.rs")).read()),
+        ("fn", "w", "prepare_record_data"),
         ("fn", "w", "serialize_record_data"),
     ],
     contracts="contracts.vc",
